@@ -43,6 +43,8 @@ var smtpCodes = []struct {
 	// a positive reply the SMTP client did not expect at that point ("252 cannot VRFY user" to the end of DATA) is a
 	// failure for the caller, and one that nothing marks temporary
 	{252, [3]int{2, 5, 0}},
+	// replies whose enhanced code is not one of a failure, or not a status code at all (the next hop chooses both)
+	{550, [3]int{2, 1, 5}}, {554, [3]int{5, -1, 0}},
 }
 
 var messages = []string{
